@@ -307,6 +307,9 @@ func checkC06(c *Ctx) {
 			c.Rep.Fatal(err.Error())
 			return
 		}
+		if projReplay(c, raw, "references") {
+			return
+		}
 		jb := c06Build(1, raw)
 		jb.Raw = raw
 		p := c.NewPool(1)
@@ -321,6 +324,8 @@ func checkC06(c *Ctx) {
 	scKinds = `{"local","local2","use","assign","assign2","do","while","if","repeat","fornum","forin","lfunc","lefunc","gfunc","meth","cfunc","file","ret","require"}`
 	c.Rep.Assumptions = append(c.Rep.Assumptions, "generated domain leaves out the trigger constructs of Dev_EmptyLocalReboundHidesDecl and Dev_GlobalWriteInsideOwnFunction and of the nested-then-shallower global definition order (Scope.tla Avoid = {hide, selfw, gshallow}); those constructs are judged with exact predictions in C05")
 	scopeRuns(c, p, c06Build, func(j *Job, r *proto.Result) { c06Judge(c, j, r) })
+	// Project.tla: workspaces analysed as a project (entry file + what it requires), both modes
+	projectRuns(c, p, 0, "references")
 	c.poolStats(p)
 	if surveyMode {
 		sv.dump()
